@@ -137,6 +137,16 @@ func splitGoal(g *Term) []*Term {
 			out = append(out, Implies(g.Args[0], c))
 		}
 		return out
+	case "forall":
+		// forall x. (A ==> B && C)  ==  (forall x. A ==> B) && (forall x. A ==> C)
+		parts := splitGoal(g.Args[0])
+		if len(parts) > 1 {
+			var out []*Term
+			for _, p := range parts {
+				out = append(out, Forall(g.Bound, p))
+			}
+			return out
+		}
 	}
 	return []*Term{g}
 }
@@ -306,10 +316,16 @@ func (ex *Exec) refFacts(st *State, v Val) {
 			if v.L[i].IsConst() {
 				continue
 			}
-			ex.assume(st, IntLe(v.L[i], st.alloc()))
+			bound := st.alloc()
+			if t := v.L[i]; ex.entry != nil && t.Op == "select" && t.Args[0].Op == "var" && strings.HasSuffix(t.Args[0].Name, "@0") {
+				bound = ex.entry.alloc() // read from the untouched entry heap: allocated before the function started
+			}
+			ex.assume(st, IntLe(v.L[i], bound))
 		case LSliceLen:
 			// 0 <= len <= cap, off >= 0 ; lengths below 2^40
 			ln, cp, off := v.L[i], v.L[i+1], v.L[i-1]
+			// a nil slice has no elements
+			ex.assume(st, Implies(Eq(v.L[i-2], IntC(0)), And(Eq(ln, BVI(0, 64)), Eq(cp, BVI(0, 64)))))
 			ex.assume(st, And(BVCmp("bvsle", BVI(0, 64), ln), BVCmp("bvsle", ln, cp), BVCmp("bvsle", cp, BVI(1<<40, 64)),
 				BVCmp("bvsle", BVI(0, 64), off), BVCmp("bvsle", off, BVI(1<<40, 64))))
 		}
@@ -538,6 +554,7 @@ func (ex *Exec) recordName(fr *Frame, name string, obj types.Object, b *ssa.Basi
 	if name == "" {
 		return
 	}
+	name = strings.ReplaceAll(name, ".", "_") // synthetic names such as rangeint.iter
 	fr.names = append(fr.names, nameRec{name: name, obj: obj, block: b, val: v, isAddr: isAddr})
 }
 
@@ -622,8 +639,41 @@ func (ex *Exec) execLoop(fr *Frame, loops map[*ssa.BasicBlock]*loopInfo, li *loo
 		fr.regs[phi] = mergeVals(conds, vs)
 		ex.recordName(fr, phi.Comment, nil, h, phi, false)
 	}
+	// automatic, proved invariant for compiler-generated range counters: -1 <= rangeindex < len
+	autoInv := func(st *State) *Term {
+		var cs []*Term
+		for _, phi := range phis {
+			if phi.Comment != "rangeindex" {
+				continue
+			}
+			for _, ins := range h.Instrs {
+				cmp, ok := ins.(*ssa.BinOp)
+				if !ok || cmp.Op != token.LSS {
+					continue
+				}
+				add, ok := cmp.X.(*ssa.BinOp)
+				if !ok || add.Op != token.ADD || add.X != phi {
+					continue
+				}
+				lim, ok := fr.regs[cmp.Y]
+				if !ok {
+					if c, isC := cmp.Y.(*ssa.Const); isC {
+						lim = ex.constVal(c)
+					} else {
+						continue
+					}
+				}
+				p := fr.regs[phi].Term()
+				cs = append(cs, BVCmp("bvsle", BVI(-1, 64), p), BVCmp("bvslt", p, BVBin("bvadd", lim.Term(), BVI(0, 64))), BVCmp("bvsle", BVI(0, 64), lim.Term()))
+			}
+		}
+		return And(cs...)
+	}
 	// init obligations
 	pos := loopPos(h)
+	if g := autoInv(entrySt); g.Op != "true" {
+		ex.oblige(fr, entrySt, "loop", lname+".init:auto_rangeindex", pos, "-1 <= rangeindex < len", g)
+	}
 	for _, inv := range lc.Invs {
 		env := ex.envAt(fr, entrySt, h)
 		g := ex.evalBool(env, inv.E)
@@ -669,6 +719,7 @@ func (ex *Exec) execLoop(fr *Frame, loops map[*ssa.BasicBlock]*loopInfo, li *loo
 			ex.refFacts(st, fr.regs[phi])
 		}
 		// assume invariants
+		ex.assume(st, autoInv(st))
 		for _, inv := range lc.Invs {
 			env := ex.envAt(fr, st, h)
 			ex.assume(st, ex.evalBool(env, inv.E))
@@ -771,17 +822,30 @@ func (ex *Exec) execLoop(fr *Frame, loops map[*ssa.BasicBlock]*loopInfo, li *loo
 		for _, e := range ctx.latches {
 			over := map[string]Val{}
 			for _, phi := range phis {
-				over[phi.Comment] = ex.val(fr, phi.Edges[predIndex(h, e.from)])
+				over[strings.ReplaceAll(phi.Comment, ".", "_")] = ex.val(fr, phi.Edges[predIndex(h, e.from)])
 			}
 			for _, inv := range lc.Invs {
 				env := ex.envAt(fr, e.st, h)
 				env.over = over
 				env.phiOver = map[ssa.Value]Val{}
 				for _, phi := range phis {
-					env.phiOver[phi] = over[phi.Comment]
+					env.phiOver[phi] = over[strings.ReplaceAll(phi.Comment, ".", "_")]
 				}
 				g := ex.evalBool(env, inv.E)
 				ex.oblige(fr, e.st, "loop", lname+".preserve:"+inv.Label, pos, inv.Src, g)
+			}
+			{
+				saved := map[*ssa.Phi]Val{}
+				for _, phi := range phis {
+					saved[phi] = fr.regs[phi]
+					fr.regs[phi] = over[strings.ReplaceAll(phi.Comment, ".", "_")]
+				}
+				if g := autoInv(e.st); g.Op != "true" {
+					ex.oblige(fr, e.st, "loop", lname+".preserve:auto_rangeindex", pos, "-1 <= rangeindex < len", g)
+				}
+				for _, phi := range phis {
+					fr.regs[phi] = saved[phi]
+				}
 			}
 			for _, fi := range frameInv(e.st) {
 				ex.oblige(fr, e.st, "loop", lname+".preserve:frame:"+fi.key, pos, "objects that existed at function entry are not modified by the loop", fi.t)
@@ -791,7 +855,7 @@ func (ex *Exec) execLoop(fr *Frame, loops map[*ssa.BasicBlock]*loopInfo, li *loo
 				env.over = over
 				env.phiOver = map[ssa.Value]Val{}
 				for _, phi := range phis {
-					env.phiOver[phi] = over[phi.Comment]
+					env.phiOver[phi] = over[strings.ReplaceAll(phi.Comment, ".", "_")]
 				}
 				nm := ex.eval(env, lc.Decreases)
 				var g *Term
@@ -930,7 +994,9 @@ func (ex *Exec) execInstr(fr *Frame, st *State, ins ssa.Instruction) {
 	switch x := ins.(type) {
 	case *ssa.DebugRef:
 		if id, ok := x.Expr.(*ast.Ident); ok {
-			ex.recordName(fr, id.Name, x.Object(), fr.curBlock, x.X, x.IsAddr)
+			if v, isVar := x.Object().(*types.Var); isVar && !v.IsField() {
+				ex.recordName(fr, id.Name, x.Object(), fr.curBlock, x.X, x.IsAddr)
+			}
 		}
 	case *ssa.Alloc:
 		t := x.Type().Underlying().(*types.Pointer).Elem()
